@@ -88,9 +88,31 @@ static JVal small_value(vf::Rng& r, int depth = 0) {
   switch (r.below(depth >= 2 ? 6 : 9)) {
     case 0: return JVal::null();
     case 1: return JVal::boolean(r.coin());
-    case 2: return JVal::uint(r.coin() ? r.below(100) : r.next());
-    case 3: return JVal::sint(-(int64_t)r.below(1000) - 1);
-    case 4: return JVal::dbl((double)(int64_t)r.below(1000) / 8.0);
+    case 2: {
+      if (r.below(4) == 0) {  // powers of ten and two and their neighbours: digit-count and kind boundaries
+        uint64_t p = 1;
+        for (unsigned k = (unsigned)r.below(20); k; k--) p *= 10;
+        if (r.coin()) p = 1ULL << r.below(64);
+        return JVal::uint(p + r.below(3) - 1);
+      }
+      return JVal::uint(r.coin() ? r.below(100) : r.next());
+    }
+    case 3: {
+      if (r.below(4) == 0) {
+        int64_t p = 1;
+        for (unsigned k = (unsigned)r.below(19); k; k--) p *= 10;
+        return JVal::sint(-p - (int64_t)r.below(2));
+      }
+      return JVal::sint(-(int64_t)r.below(1000) - 1);
+    }
+    case 4: {
+      if (r.below(4) == 0) {
+        double p = 1;
+        for (unsigned k = (unsigned)r.below(23); k; k--) p *= 10;
+        return JVal::dbl(r.coin() ? p : -p);
+      }
+      return JVal::dbl((double)(int64_t)r.below(1000) / 8.0);
+    }
     case 5: {
       std::string s(r.below(5) == 0 ? r.range(30, 70) : r.range(0, 8), 'a');
       for (auto& c : s) c = (char)r.range(0x20, 0x7e);
